@@ -3,6 +3,7 @@
 // contained nodes, insert(before, x) with `before` contained or null.
 // The colour of a removed node's hook is not asserted (only its five link fields must be reset).
 #include <vector>
+#include <cstring>
 #include <algorithm>
 #include <cmath>
 #include <frg/rbtree.hpp>
@@ -12,13 +13,18 @@ const char *verif_harness = "rbtree_seq";
 using namespace verif;
 
 namespace {
+// The constructor is user-provided and does not mention the hook: `new (p) Node` default-initialises it, in storage that
+// holds 0xA5 bytes (a recycled pool slot). A hook that relies on zeroed storage starts with garbage links.
 struct Node {
-	int key = 0;
-	int serial = 0;
-	bool in = false;
+	int key, serial;
+	bool in;
 	frg::rbtree_hook hook;
+	Node() { key = 0; serial = 0; in = false; }
 };
-struct KeyLess { bool operator()(const Node &a, const Node &b) const { return a.key < b.key; } };
+// A comparator with state (it dereferences a pointer), handed to the tree as a temporary: the tree has to keep a copy.
+int g_bias = 0;
+struct KeyLess { const int *bias = &g_bias; bool operator()(const Node &a, const Node &b) const { return a.key + *bias < b.key + *bias; } };
+__attribute__((noinline)) void scribble_stack() { volatile unsigned char buf[768]; for(size_t i = 0; i < sizeof buf; i++) buf[i] = 0xA5; }
 using Tree = frg::rbtree<Node, &Node::hook, KeyLess>;
 using OTree = frg::rbtree_order<Node, &Node::hook>;
 using color = frg::_redblack::color_type;
@@ -116,11 +122,15 @@ struct Checker {
 
 constexpr int POOL = 320;
 
+__attribute__((noinline)) Tree *make_keyed_tree(Ctx &c) { return c.make<Tree>(KeyLess{&g_bias}); }
+
 void run_keyed(Ctx &c, bool scripted) {
 	auto &t = c.t;
 	Node *pool = (Node *)c.raw(sizeof(Node) * POOL);
-	for(int i = 0; i < POOL; i++) { new (&pool[i]) Node(); pool[i].serial = i; }
-	Tree *tree = c.make<Tree>();
+	memset((void *)pool, 0xA5, sizeof(Node) * POOL);
+	for(int i = 0; i < POOL; i++) { new (&pool[i]) Node; pool[i].serial = i; }
+	Tree *tree = make_keyed_tree(c);
+	scribble_stack();
 	std::vector<Node *> ref;
 	Checker<Tree> ck{c, *tree, ref, {}};
 	bool rm_two = false, rm_big = false, reinserted = false;
@@ -189,7 +199,8 @@ void run_keyed(Ctx &c, bool scripted) {
 void run_order(Ctx &c) {
 	auto &t = c.t;
 	Node *pool = (Node *)c.raw(sizeof(Node) * POOL);
-	for(int i = 0; i < POOL; i++) { new (&pool[i]) Node(); pool[i].serial = i; }
+	memset((void *)pool, 0xA5, sizeof(Node) * POOL);
+	for(int i = 0; i < POOL; i++) { new (&pool[i]) Node; pool[i].serial = i; }
 	OTree *tree = c.make<OTree>();
 	std::vector<Node *> ref;
 	Checker<OTree> ck{c, *tree, ref, {}};
